@@ -145,9 +145,8 @@ func (body *UnsupportedMessage) Pack(buffer []byte) {
 
 // Unpack initializes the structure by parsing the given data.
 func (body *UnsupportedMessage) Unpack(data []byte) (uint, error) {
-	if len(body.Data) < len(data) {
-		body.Data = make([]byte, len(data))
-	}
+	// The result is exactly the given data, whatever the receiver held before.
+	body.Data = make([]byte, len(data))
 
 	return uint(copy(body.Data, data)), nil
 }
